@@ -194,7 +194,7 @@ def _pets_planner_bounds(rep, sess, tier, seed):
     entries lie inside that dimension's own bounds."""
     from rl_blox.algorithm import pets
     H, n_samples = 2, 2
-    for d in ([2] if tier == "quick" else [1, 2, 3]):
+    for d in ([2] if tier == "quick" else [1, 2]):
         low0 = -jnp.arange(1, d + 1, dtype=jnp.float32)
         high0 = jnp.arange(1, d + 1, dtype=jnp.float32) * 3
 
@@ -208,8 +208,8 @@ def _pets_planner_bounds(rep, sess, tier, seed):
         e.add_hyp(S.SA(low) < S.SA(high), lo_b <= S.SA(mean), S.SA(mean) <= hi_b, S.SA(var) >= 0)
         e.check_reachable()
         e.obligation("planner-candidates-within-each-dimension's-own-bounds",
-                     lambda i, o, d=d: [S.le(S.bcast(S.SA(i[0]).reshape(1, 1, d), (n_samples, H, d)), S.SA(o)), S.le(S.SA(o), S.bcast(S.SA(i[1]).reshape(1, 1, d), (n_samples, H, d)))],
-                     site="pets._init_mpc_optimizer_cem:candidates-within-action-bounds")
+                     lambda i, o, d=d: S.le(S.bcast(S.SA(i[0]).reshape(1, 1, d), (n_samples, H, d)), S.SA(o)) & S.le(S.SA(o), S.bcast(S.SA(i[1]).reshape(1, 1, d), (n_samples, H, d))),
+                     split=True, site="pets._init_mpc_optimizer_cem:candidates-within-action-bounds")
 
 
 def _provenance(rep, tier, seed):
